@@ -109,6 +109,8 @@ func init() {
 			hand := []Case{
 				{"cmd": "userdict", "attrs": []UAttr{{"Perfect5", "bb5"}}, "chords": []UChord{{"U1", "u1", []string{"Perfect1", "Perfect5"}, ""}}},                                             // attribute override: later wins
 				{"cmd": "userdict", "attrs": []UAttr{}, "chords": []UChord{{"A", "a", nil, "B"}, {"B", "b", nil, "C"}, {"C", "c", nil, "A"}}},                                                      // 3-cycle
+				{"cmd": "userdict", "attrs": []UAttr{}, "chords": []UChord{{"T", "t", []string{"Major3"}, "A"}, {"A", "a", nil, "B"}, {"B", "b", nil, "A"}}},                                       // a tail leading into a cycle
+				{"cmd": "userdict", "attrs": []UAttr{}, "chords": []UChord{{"T", "t", nil, "U"}, {"U", "u", nil, "V"}, {"V", "v", []string{"Major3"}, "V"}}},                                       // a tail leading into a self-loop
 				{"cmd": "userdict", "attrs": []UAttr{}, "chords": []UChord{{"A", "a", []string{"Major9"}, "B"}, {"B", "b", []string{"Minor7"}, "C"}, {"C", "c", []string{"Major6"}, "MinorTriad"}}}, // depth 3 over a built-in
 				{"cmd": "userdict", "attrs": []UAttr{}, "chords": []UChord{{"A", "a", []string{"Major9"}, "b"}, {"B", "b", []string{"Minor7"}, "m7b5"}}},                                            // extends by display
 				{"cmd": "userdict", "attrs": []UAttr{{"XA", "b2"}}, "chords": []UChord{{"", "zz", []string{"XA"}, ""}}},                                                                             // unnamed chord
